@@ -15,8 +15,9 @@
   (`Rows` additionally panics on `emit` before the first `intern`: `rowsInit`).
 
   `fixClear` selects what `clear_shrink` does to the bookkeeping that lives outside the cleared
-  containers: `false` = the code as it is (`GroupValuesPrimitive::null_group` and
-  `GroupValuesBytes*::num_groups` survive `clear_shrink`), `true` = a store that resets them.
+  containers: `true` = the current code (after /repo commit f8726ff: `null_group = None`,
+  `num_groups = 0`), `false` = the pinned upstream code, in which `GroupValuesPrimitive::null_group`
+  and `GroupValuesBytes*::num_groups` survived `clear_shrink` (kept for the witness theorems).
   The hash function is a parameter: every result is independent of it (collisions included).
   Core Lean only.
 -/
@@ -127,7 +128,7 @@ def step (hash : Nat → Nat) (fixClear : Bool) (s : St) : Op (Option Nat) → S
        match build (s.values.take n) outNull with | some ks => .keys ks | none => .panic)
     else (s, .invalid)
   | .clear =>
-    -- values.clear(); map.clear();  `null_group` is not touched by the code
+    -- null_group = None (f8726ff; upstream left it untouched); values.clear(); map.clear()
     ({ map := [], values := [], nullGroup := if fixClear then none else s.nullGroup }, .unit)
 
 def run (hash : Nat → Nat) (fixClear : Bool) (s : St) : List (Op (Option Nat)) → St × List (Out (Option Nat))
